@@ -161,6 +161,7 @@ Section Honest.
         | FSave =>
             oenc_ok (working_version (ms st)) (root (ms st)) /\
             forall e, lookup (working_version (ms st)) (forest (ms st)) = Some e -> oenc_ok 0 e
+        | FOpenAt _ v => snd (do_load (fresh_ms (ms st)) v) <> XErr   (* the load succeeds *)
         | _ => True
         end /\
         frun_ok_cf (fst (fstep H st o)) rest
@@ -168,15 +169,20 @@ Section Honest.
 
   Lemma frun_ok_of_cf :
     (forall x y, H x = H y -> x = y) ->
-    forall ops st, state_inv (ms st) -> hash_inv H (ms st) ->
+    forall ops st, FastLifeFacts.fgood st -> hash_inv H (ms st) ->
     frun_ok_cf st ops -> FastLifeFacts.frun_ok H st ops.
   Proof.
-    intros Inj. induction ops as [|o ops IH]; intros st I HI R; cbn [FastLifeFacts.frun_ok]; [exact Logic.I|].
-    destruct R as (IC & B & R). split.
-    - split; [exact IC|]. destruct o; try exact Logic.I.
-      destruct B as [Br Be]. apply save_honest_collision_free; assumption.
-    - apply IH; [| |exact R]; rewrite FastLifeFacts.fstep_ms;
-        [apply step_inv, I|apply step_hash_inv; assumption].
+    intros Inj. induction ops as [|o ops IH]; intros st G HI R; cbn [FastLifeFacts.frun_ok];
+      [exact Logic.I|].
+    destruct R as (IC & B & R).
+    assert (FC : fin_contract H st o).
+    { split; [exact IC|]. destruct o; try exact Logic.I; [|exact B].
+      destruct B as [Br Be]. apply save_honest_collision_free; try assumption. apply G. }
+    split; [exact FC|].
+    apply IH; [apply FastLifeFacts.fgood_step; assumption| |exact R].
+    destruct (FastLifeFacts.fstep_logical H st o (FastLifeFacts.fg_inv _ G)
+                (FastLifeFacts.fg_contig _ G) FC (FastLifeFacts.fg_coh _ G)) as [M _].
+    rewrite M. apply run_hash_inv; [apply G|exact HI].
   Qed.
 
   Theorem frun_logical_collision_free iv b skip0 ops :
@@ -184,20 +190,21 @@ Section Honest.
     init_ok iv b ->
     let st0 := fst (fstep H (finit iv b) (FOpen skip0)) in
     frun_ok_cf st0 ops ->
-    snd (frun H st0 ops) = snd (run H (ms st0) (map logical ops)) /\
-    ms (fst (frun H st0 ops)) = fst (run H (ms st0) (map logical ops)) /\
+    snd (frun H st0 ops) =
+      FastLifeFacts.visible ops (snd (run H (ms st0) (concat (map logical_ops ops)))) /\
+    ms (fst (frun H st0 ops)) = fst (run H (ms st0) (concat (map logical_ops ops))) /\
     fcoh (fst (frun H st0 ops)).
   Proof.
     intros Inj IO st0 R.
     assert (Hiv : 0 <= iv) by (unfold init_ok in IO; destruct b; lia).
     assert (Hn : iv <> 0 \/ b = false) by (unfold init_ok in IO; destruct b; [left; lia|right; reflexivity]).
-    assert (I0 : state_inv (ms st0) /\ hash_inv H (ms st0)).
-    { unfold st0. rewrite FastLifeFacts.fstep_ms. cbn [finit ms logical]. split.
-      - apply step_inv, state_inv_init, Hiv.
-      - apply step_hash_inv; [apply state_inv_init, Hiv|apply hash_inv_init, Hn]. }
-    destruct I0 as [I0 HI0].
+    assert (HI0 : hash_inv H (ms st0)).
+    { unfold st0. rewrite (FastLifeFacts.fstep_ms H (finit iv b) (FOpen skip0) eq_refl).
+      cbn [finit ms logical].
+      apply step_hash_inv; [apply state_inv_init, Hiv|apply hash_inv_init, Hn]. }
     destruct (FastLifeFacts.frun_logical H iv b skip0 ops IO
-                (frun_ok_of_cf Inj ops st0 I0 HI0 R)) as (_ & E1 & E2 & Co).
+                (frun_ok_of_cf Inj ops st0 (FastLifeFacts.fgood_opened H iv b skip0 IO) HI0 R))
+      as (_ & E1 & E2 & Co).
     auto.
   Qed.
 End Honest.
